@@ -296,3 +296,11 @@ def python_to_float(value: Union[SupportsFloat, str]) -> str:
 
 def python_to_int(value: Union[SupportsInt, str]) -> str:
     return str(int(value))
+
+
+def python_to_decimal(value: Union[Decimal, int, float, str]) -> str:
+    if isinstance(value, float) and not isinf(value) and not isnan(value):
+        value = Decimal(repr(value))
+    if isinstance(value, Decimal) and value.is_finite():
+        return format(value, 'f')  # the lexical space of xs:decimal has no exponent notation
+    return str(value)
